@@ -129,8 +129,12 @@ def run(ctx):
                                               info['sample_specs'][sid]['datatype'] == 'I')
         with warnings.catch_warnings():
             warnings.simplefilter('ignore')
+            # (plots requested in the experiments with a large cell file and in one other: what is returned must not depend on it)
+            with_plots = cid[1] % 8 in (6, 2)
             o = core.attempt(E.process_samples_table, stab, itab, mef_transform_fxns=mef_fxns, beads_table=btab,
-                             base_dir=base, verbose=False, plot=False)
+                             base_dir=base, verbose=False, plot=with_plots, plot_dir='plot_samples')
+            import matplotlib.pyplot as _plt
+            _plt.close('all')
         if not ctx.check(not o.raised, 'samples-table-raised', cid, exc=core.tb_str(o.exc)[-600:] if o.raised else None):
             continue
         samples = o.value
